@@ -8,7 +8,7 @@ package compiler
 // to the index, in the token list, of the first kept instruction at or after the target.
 //
 //   T<a> Try @a      M Push Marker<try>     U DropToMarker Marker<try>    O TryPop
-//   J<a> Branch      F<a> BranchFalse       E<k> call mk(k)               R Div
+//   J<a> Branch      F<a> BranchFalse       E<k> call mk(k) / mkv(k)      R Div
 //   P<v> UserPanic   V Recover              C<f> call f<f>()              Q RunDefers
 //   X Return         D{..} DeferStart/Push closure/Defer with the closure's own skeleton
 //
@@ -88,7 +88,7 @@ func c10Skeleton(b *bytecode.ByteCode) string {
 			add(a, "F", t)
 		case bytecode.Load:
 			switch {
-			case opnd == "mk":
+			case opnd == "mk" || opnd == "mkv":
 				k := -1
 				if nx := b.Instruction(a + 1); nx != nil && nx.Operation == bytecode.Push {
 					k, _ = c10OperandInt(nx.Operand)
